@@ -20,7 +20,7 @@ MODP = "coxeter.shapes.polyhedron"
 COORD = (X, Y, Z)
 
 
-def _concretise(chk, name, fk, expr, reference, centre=None):
+def _concretise(chk, name, fk, expr, reference, centre=None, axes=()):
     """cross-check of the engine (pyvc.concrete): the symbolic value with the arrays of a real, placed U-shaped voxel solid (vertices, faces, the
     triangles its own surface triangulation yields) against the same member run by CPython on that object"""
     from pyvc import concrete
@@ -37,7 +37,7 @@ def _concretise(chk, name, fk, expr, reference, centre=None):
         cen = np.asarray(o.centroid, float)
         scal = {centre[j]: float(cen[j]) for j in range(3)}
     env = concrete.Env(sizes={H.N: len(V), H.F: len(Fc), H.LF: Fc.shape[1], H.T: len(tri)}, arrays={"Vh": V, "Fch": Fc, "Tr": tri}, scalars=scal)
-    concrete.cross_check(chk, name, fk, expr, env, (), np.asarray(reference(o)), rtol=1e-9)
+    concrete.cross_check(chk, name, fk, expr, env, axes, np.asarray(reference(o)), rtol=1e-9)
 
 
 def run(chk):
@@ -77,6 +77,11 @@ def run(chk):
             return o._equations
         for p in chk.explore(fk, run_fe, assumptions=facts):
             E = [to_expr(p.value.inner[j]) for j in range(4)]
+            for j in range(4):
+                def ref(o, j=j):
+                    o._find_equations()
+                    return np.asarray(o._equations)[:, j]
+                _concretise(chk, f"Polyhedron._find_equations[{j}]", fk, E[j], ref, axes=(H.F,))
             Nf, P0 = H.face_normal_raw()
             nrm = sp.sqrt(H.radicand(Nf))
             for j in range(3):
